@@ -93,6 +93,7 @@ type interpreter struct {
 	cfg                *Config
 	initializing       bool
 	initDone           map[*ssa.Package]bool
+	fnInfo             map[*ssa.Function]*fnInfo
 	unique             map[string]*value
 	frozenBase         *frozenBase
 }
@@ -472,6 +473,30 @@ func loc(fset *token.FileSet, pos token.Pos) string {
 // callSSA interprets a call to function fn with arguments args,
 // and lexical environment env, returning its result.
 // callpos is the position of the callsite.
+type fnInfo struct {
+	name     string
+	ext      externalFn
+	isInit   bool
+	inModule bool
+}
+
+func (i *interpreter) info(fn *ssa.Function) *fnInfo {
+	if fi := i.fnInfo[fn]; fi != nil {
+		return fi
+	}
+	if i.fnInfo == nil {
+		i.fnInfo = map[*ssa.Function]*fnInfo{}
+	}
+	fi := &fnInfo{name: fn.String()}
+	if fn.Parent() == nil {
+		fi.ext = lookupExternal(fi.name)
+	}
+	fi.isInit = fn.Name() == "init" && fn.Pkg != nil && fn.Parent() == nil && fn.Signature.Recv() == nil
+	fi.inModule = fn.Pkg != nil && strings.HasPrefix(fn.Pkg.Pkg.Path(), i.cfg.ModulePath)
+	i.fnInfo[fn] = fi
+	return fi
+}
+
 func callSSA(i *interpreter, caller *frame, callpos token.Pos, fn *ssa.Function, args []value, env []value) value {
 	if i.mode&EnableTracing != 0 {
 		fset := fn.Prog.Fset
@@ -488,7 +513,8 @@ func callSSA(i *interpreter, caller *frame, callpos token.Pos, fn *ssa.Function,
 		caller: caller, // for panic/recover
 		fn:     fn,
 	}
-	if fn.Name() == "init" && fn.Pkg != nil && fn.Parent() == nil && fn.Signature.Recv() == nil {
+	fi := i.info(fn)
+	if fi.isInit {
 		if !initOK(fn.Pkg.Pkg.Path(), i.cfg.ModulePath) {
 			return nil
 		}
@@ -500,15 +526,15 @@ func callSSA(i *interpreter, caller *frame, callpos token.Pos, fn *ssa.Function,
 		}
 		defer func() { ex.depth-- }()
 		ex.lastFn = fn
-		if fn.Pkg != nil && !i.initializing && strings.HasPrefix(fn.Pkg.Pkg.Path(), i.cfg.ModulePath) {
-			if _, ok := ex.w.res.Funcs[fn.String()]; !ok {
-				ex.w.res.Funcs[fn.String()] = fn.Prog.Fset.Position(fn.Pos()).String()
+		if fi.inModule && !i.initializing {
+			if _, ok := ex.w.res.Funcs[fi.name]; !ok {
+				ex.w.res.Funcs[fi.name] = fn.Prog.Fset.Position(fn.Pos()).String()
 			}
 		}
 	}
 	if fn.Parent() == nil {
-		name := fn.String()
-		if ext := lookupExternal(name); ext != nil {
+		name := fi.name
+		if ext := fi.ext; ext != nil {
 			if i.ex != nil && !i.initializing {
 				i.ex.w.res.Intrinsics[name]++
 			}
